@@ -585,6 +585,34 @@ fn scan_miner(w: &World, policy: &Policy, m: &mut Miner, probs: &mut Vec<Prob>) 
             Err(e) => bad!("C04", "partitions-unreadable", "deadline {}: {}", di, e),
         }
         snap.posted.insert(di, set_of(&dl.partitions_posted));
+        // deadline-level expiration queue (epoch -> partitions): every epoch at which a partition's own
+        // queue has an entry must list that partition here, otherwise the deadline cron never visits it
+        let dl_queue: BTreeMap<ChainEpoch, BTreeSet<u64>> = {
+            let mut m = BTreeMap::new();
+            if let Ok(q) = fil_actor_miner::BitFieldQueue::new(store, &dl.expirations_epochs, quant) {
+                let _ = q.amt.for_each(|e, bf| {
+                    m.insert(e as ChainEpoch, set_of(bf));
+                    Ok(())
+                });
+            } else {
+                bad!("C04", "deadline-expq-unreadable", "deadline {}", di);
+            }
+            m
+        };
+        for (pi, p) in parts.iter() {
+            if let Ok(q) = ExpirationQueue::new(store, &p.expirations_epochs, quant) {
+                let mut epochs = vec![];
+                let _ = q.amt.for_each(|e, _| {
+                    epochs.push(e as ChainEpoch);
+                    Ok(())
+                });
+                for e in epochs {
+                    if !dl_queue.get(&e).map(|s| s.contains(pi)).unwrap_or(false) {
+                        bad!("C04", "deadline-expq-missing-partition", "deadline {}: partition {} has sectors expiring at {} but the deadline's expiration queue does not list it there", di, pi, e);
+                    }
+                }
+            }
+        }
         let mut dl_live: u64 = 0;
         let mut dl_total: u64 = 0;
         let mut dl_faulty = pw_zero();
